@@ -19,3 +19,122 @@ fn('dsplib::base_slice_t::base_slice_t', TU, sig='(int, int, int, int)', serves=
        ('in_range', 'forall(lambda k: Implies(And(0 <= k, k < _nc), And(0 <= a + k*m, a + k*m < n)))'),
    ],
    assigns=['this'])
+
+# ---------------------------------------------------------------------------------------------------
+from engine.spec import inline_fn, BASE_NS
+import z3 as _z3
+
+SL = 'dsplib::slice_t<*>::'
+CSL = 'dsplib::const_slice_t<*>::'
+IT = 'dsplib::SliceIterator<*>::'
+
+inline_fn(SL + 'size', SL + 'stride', SL + 'begin', SL + 'end', CSL + 'size', CSL + 'stride', CSL + 'begin',
+          CSL + 'end', IT + 'SliceIterator', IT + 'operator*', IT + 'operator++', IT + 'operator->',
+          'dsplib::operator==', 'dsplib::operator!=', 'dsplib::indexing::end_t::end_t')
+
+
+def slice_ok(s, n):
+    """representation invariant of a slice object over a base array of length n: what base_slice_t's
+    constructor establishes (resolved indices in range, count = Python's len(range(a, b, m)))"""
+    a, b, m, nc = s._i1, s._i2, s._m, s._nc
+    k = _z3.Int('k!sok')
+    return _z3.And(s._n == n, n > 0, m != 0, 0 <= a, a < n, 0 <= b, b <= n, nc >= 0,
+                   _z3.Implies(m > 0, _z3.And(a <= b, a + nc * m >= b, _z3.Or(nc == 0, a + (nc - 1) * m < b))),
+                   _z3.Implies(m < 0, _z3.And(a >= b, a + nc * m <= b, _z3.Or(nc == 0, a + (nc - 1) * m > b))),
+                   _z3.ForAll([k], _z3.Implies(_z3.And(0 <= k, k < nc), _z3.And(0 <= a + k * m, a + k * m < n))))
+
+
+def same_slice(s, r):
+    return _z3.And(s._i1 == r._i1, s._m == r._m, s._nc == r._nc)
+
+
+def written(s, j):
+    """index j of the base array is one of the slice's positions"""
+    from engine.spec import INSLICE
+    return INSLICE(s._i1, s._m, s._nc, j)
+
+
+ENV = {'slice_ok': slice_ok, 'same_slice': same_slice, 'written': written}
+
+# constructors from an array: resolve through base_slice_t's contract, bind the array
+for cls, arr in (('dsplib::slice_t<*>::slice_t', '(base_array<'), ('dsplib::const_slice_t<*>::const_slice_t', '(const base_array<')):
+    fn(cls, TU, sig=arr, serves=['C04'], extra_env=ENV, lets={'n': 'arr.len', **SLICE_LETS},
+       throws='Or(n == 0, m == 0, a < 0, a >= n, b < 0, b > n, And(m < 0, a < b), And(m > 0, a > b))',
+       ensures=[('invariant', 'slice_ok(this, arr.len)'),
+                ('resolved', 'And(_i1 == a, _i2 == b, _m == m)')],
+       binds={'_base': 'arr'}, assigns=['this'])
+
+# copies of a slice denote the same elements and never throw
+for cls, sig in (('dsplib::slice_t<*>::slice_t', '(const dsplib::slice_t<'),
+                 ('dsplib::const_slice_t<*>::const_slice_t', '(const dsplib::const_slice_t<'),
+                 ('dsplib::const_slice_t<*>::const_slice_t', '(const slice_t<')):
+    fn(cls, TU, sig=sig, serves=['C04'], extra_env=ENV,
+       requires=['slice_ok(rhs, rhs._base.len)'],
+       throws='False',
+       ensures=[('same_elements', 'same_slice(this, rhs)'), ('invariant', 'slice_ok(this, _base.len)')],
+       binds={'_base': 'rhs._base'}, assigns=['this'])
+
+# ---------------------------------------------------------------------------------------------------
+# assignments through a slice: exactly the slice's positions are written, nothing else, equal counts
+# required, overlap inside one array behaves as if the source had been copied first
+ASSIGN_POST = [
+    ('length', '_base.len == old._base.len'),
+    ('written', 'forall(lambda k: Implies(And(0 <= k, k < _nc), _base[_i1 + k*_m] == SRC(k)))'),
+    ('others', 'forall(lambda j: Implies(And(0 <= j, j < _base.len, Not(written(this, j))), _base[j] == old._base[j]))'),
+    ('slice_unchanged', 'same_slice(this, old.this)'),
+]
+
+
+def _post(src):
+    return [(lab, e.replace('SRC(k)', src)) for lab, e in ASSIGN_POST]
+
+
+fn(SL + 'operator=', TU, sig='(const const_slice_t<', key='slice_t::operator=(const_slice)', serves=['C04', 'C05'],
+   extra_env=ENV, returns_ref='this', assigns=['this._base'], body_assumes=['INSLICE_AX()'],
+   requires=['slice_ok(this, _base.len)', 'slice_ok(rhs, rhs._base.len)'],
+   scenarios=[{'name': 'distinct'}, {'name': 'same_array', 'ref_alias': {'rhs._base': 'ext_this__base'}}],
+   throws='_nc != rhs._nc',
+   ensures=_post('old.rhs._base[rhs._i1 + k*rhs._m]'))
+
+fn(SL + 'operator=', TU, sig='(const slice_t<', key='slice_t::operator=(slice)', serves=['C04', 'C05'],
+   extra_env=ENV, returns_ref='this', assigns=['this._base'], body_assumes=['INSLICE_AX()'],
+   requires=['slice_ok(this, _base.len)', 'slice_ok(rhs, rhs._base.len)'],
+   scenarios=[{'name': 'distinct'}, {'name': 'same_array', 'ref_alias': {'rhs._base': 'ext_this__base'}}],
+   throws='_nc != rhs._nc',
+   ensures=_post('old.rhs._base[rhs._i1 + k*rhs._m]'))
+
+fn(SL + 'operator=', TU, sig='(const base_array<', key='slice_t::operator=(array)', serves=['C04', 'C05'],
+   extra_env=ENV, returns_ref='this', assigns=['this._base'], body_assumes=['INSLICE_AX()'],
+   requires=['slice_ok(this, _base.len)'],
+   scenarios=[{'name': 'distinct'}],
+   throws='_nc != rhs.len',
+   ensures=_post('rhs[k]'))
+
+fn(SL + 'operator=', TU, sig='(const double &)', key='slice_t::operator=(real scalar)', serves=['C04', 'C05'],
+   extra_env=ENV, returns_ref='this', assigns=['this._base'], body_assumes=['INSLICE_AX()'],
+   requires=['slice_ok(this, _base.len)'], throws='False',
+   ensures=_post('value'))
+fn(SL + 'operator=', TU, sig='(const dsplib::cmplx_t &)', key='slice_t::operator=(cmplx scalar)', serves=['C04', 'C05'],
+   extra_env=ENV, returns_ref='this', assigns=['this._base'], body_assumes=['INSLICE_AX()'],
+   requires=['slice_ok(this, _base.len)'], throws='False',
+   ensures=_post('value'))
+
+fn(SL + 'operator=', TU, sig='(const std::initializer_list<', key='slice_t::operator=(list)', serves=['C04', 'C05'],
+   extra_env=ENV, returns_ref='this', assigns=['this._base'], body_assumes=['INSLICE_AX()'],
+   requires=['slice_ok(this, _base.len)'],
+   throws='_nc != rhs.len',
+   ensures=_post('rhs[k]'))
+
+# materialisation
+for sig, nm in (('(const const_slice_t<', 'const_slice'), ('(const slice_t<', 'slice')):
+    fn('dsplib::base_array<*>::base_array', TU, sig=sig, key='base_array(%s)' % nm, serves=['C04', 'C05'],
+       extra_env=ENV, assigns=['this'],
+       requires=['slice_ok(rhs, rhs._base.len)'], throws='False',
+       ensures=[('length', 'this.len == rhs._nc'),
+                ('elements', 'forall(lambda k: Implies(And(0 <= k, k < rhs._nc), this[k] == rhs._base[rhs._i1 + k*rhs._m]))')])
+
+for cls in ('slice_t', 'const_slice_t'):
+    fn('dsplib::%s<*>::operator*' % cls, TU, key=cls + '::operator*', serves=['C04'], extra_env=ENV, pure=True,
+       requires=['slice_ok(this, _base.len)'], throws='False',
+       ensures=[('length', 'result.len == _nc'),
+                ('elements', 'forall(lambda k: Implies(And(0 <= k, k < _nc), result[k] == _base[_i1 + k*_m]))')])
